@@ -246,7 +246,7 @@ def body_factory(ctx):
                 bmap = None
             ctx.count('twin:' + twin['kind'])
             if base['ok'] and not tres['ok']:
-                ctx.fail('twin_not_converged', dict(kind=twin['kind']), sig=dict(kind=twin['kind']))
+                ctx.fail('twin_not_converged', dict(kind=twin['kind'], method=cfg['method']), sig=dict(kind=twin['kind'], method=cfg['method']))
             elif base['ok']:
                 # both runs carry Line's 1e-8 regularisation, applied *after* conversion to the (different)
                 # system base; its first-order effect on the solution is bounded through the oracle's reg term
